@@ -41,14 +41,18 @@ CdfMonotone(ens, ts) == \A a, b \in DOMAIN ts : Le(ts[a], ts[b]) => (Mem(ens) = 
 \* output times: every day on which the input has an initialisation time, at each requested hour
 ExpandTimes(times, hours) == SortInts({(t \div 86400) * 86400 + h * 3600 : t \in Elems(times), h \in Elems(hours)})
 \* the observation valid at unix time v at location position k (the same whichever (time, lead) pair reports it)
-ObsValidAt(times, leads, C, v, k) ==
-  LET hits == {<<i, j>> \in (DOMAIN times) \X (DOMAIN leads) : times[i] + leads[j] * 3600 = v}
+\* lead times are whole multiples of a unit of u seconds (3600: hours; 1800: half hours - lead times of 0.5, 1.5 h are legal)
+ObsValidAtU(times, leads, C, v, k, u) ==
+  LET hits == {<<i, j>> \in (DOMAIN times) \X (DOMAIN leads) : times[i] + leads[j] * u = v}
   IN  IF hits = {} THEN NaN ELSE C[<<(CHOOSE h \in hits : TRUE)[1], (CHOOSE h \in hits : TRUE)[2], k>>]
-ExpandVerif(times, leads, ns, C, hours, oleads) ==
+ExpandVerifU(times, leads, ns, C, hours, oleads, u) ==
   LET ot == ExpandTimes(times, hours) IN
-  [p \in {<<i, j, k>> : i \in DOMAIN ot, j \in DOMAIN oleads, k \in 1..ns} |-> ObsValidAt(times, leads, C, ot[p[1]] + oleads[p[2]] * 3600, p[3])]
+  [p \in {<<i, j, k>> : i \in DOMAIN ot, j \in DOMAIN oleads, k \in 1..ns} |-> ObsValidAtU(times, leads, C, ot[p[1]] + oleads[p[2]] * u, p[3], u)]
 \* placed where the valid time matches and nowhere else
-ExpandSound(times, leads, ns, C, hours, oleads) ==
-  LET ot == ExpandTimes(times, hours)  E == ExpandVerif(times, leads, ns, C, hours, oleads) IN
-  \A p \in DOMAIN E : ~IsNaN(E[p]) => \E i \in DOMAIN times, j \in DOMAIN leads : times[i] + leads[j] * 3600 = ot[p[1]] + oleads[p[2]] * 3600 /\ C[<<i, j, p[3]>>] = E[p]
+ExpandSoundU(times, leads, ns, C, hours, oleads, u) ==
+  LET ot == ExpandTimes(times, hours)  E == ExpandVerifU(times, leads, ns, C, hours, oleads, u) IN
+  \A p \in DOMAIN E : ~IsNaN(E[p]) => \E i \in DOMAIN times, j \in DOMAIN leads : times[i] + leads[j] * u = ot[p[1]] + oleads[p[2]] * u /\ C[<<i, j, p[3]>>] = E[p]
+ObsValidAt(times, leads, C, v, k) == ObsValidAtU(times, leads, C, v, k, 3600)
+ExpandVerif(times, leads, ns, C, hours, oleads) == ExpandVerifU(times, leads, ns, C, hours, oleads, 3600)
+ExpandSound(times, leads, ns, C, hours, oleads) == ExpandSoundU(times, leads, ns, C, hours, oleads, 3600)
 =============================================================================
